@@ -30,6 +30,7 @@ DEFAULT_WEIGHTS = {
     "REPORT": 1,
     "RESTART": 2,
     "RECREATE": 1,
+    "RACE": 0,
 }
 
 CAL_SLOTS = ["c1", "c1", "c1", "c2", "b1", "n1", "h1", "x1"]
@@ -184,6 +185,12 @@ def program(draw, weights=None, min_steps=8, max_steps=30, prefixes=PREFIXES, se
             kind = {"c1": "mkcalendar", "c2": "ext-calendar", "a1": "ext-addressbook", "x1": "plain"}[slot]
             steps.append({"op": "DELETE", "fe": fe, "afe": afe, "coll": slot, "name": None, "slash": draw(st.booleans())})
             steps.append({"op": "MKCOL", "fe": draw(FE), "afe": afe, "coll": slot, "kind": kind, "props": [], "slash": draw(st.booleans())})
+        elif op == "RACE":
+            fam = draw(st.integers(0, 3)) > 0
+            if fam:
+                steps.append({"op": "RACE", "fe": "aio", "afe": afe, "coll": draw(st.sampled_from(["c1", "c1", "b1", "h1"])), "name": draw(st.sampled_from(ics_names)), "ctype": "text/calendar", "body": enc_body(draw(st.sampled_from(cal_bodies))["raw"]), "reader": draw(st.sampled_from(["get", "get", "multiget"]))})
+            else:
+                steps.append({"op": "RACE", "fe": "aio", "afe": afe, "coll": "a1", "name": draw(st.sampled_from(vcf_names)), "ctype": "text/vcard", "body": enc_body(draw(st.sampled_from(card_bodies))["raw"]), "reader": draw(st.sampled_from(["get", "multiget"]))})
         elif op == "RESTART":
             steps.append({"op": "RESTART"})
     return {"config": cfg, "steps": steps}
